@@ -238,6 +238,7 @@ type checkRun struct {
 	violations    []violation
 	knownHits     []string
 	bounded       []map[string]any
+	staleContracts []string
 }
 
 type violation struct {
@@ -291,6 +292,14 @@ func (r *checkRun) run() int {
 			continue
 		}
 		rep := VerifyFunction(w, fn, fc)
+		if strings.Contains(rep.Unsupported, "unknown identifier") {
+			// the contract names a local variable (or parameter) the function no longer has: the contract is out of
+			// date with respect to the code (a rename is enough). Nothing is decided about the property by that.
+			fmt.Printf("UNDECIDED %s: the contract is out of date with the code (%s); nothing was proved or refuted for this function\n", fc.Key, rep.Unsupported)
+			r.staleContracts = append(r.staleContracts, fc.Key+": "+rep.Unsupported)
+			rep.Unsupported = ""
+			rep.Obligations = nil
+		}
 		if rep.Unsupported != "" {
 			rep.Obligations = append(rep.Obligations, &Obligation{Name: fc.Key + "#unsupported", Kind: "unsupported", Func: fc.Key, Result: "unsupported", Detail: rep.Unsupported})
 		}
@@ -476,6 +485,7 @@ func (r *checkRun) finish(w *World) int {
 		"bounded_standins":         r.bounded,
 		"not_decided":              r.cfg.NotDecided,
 		"known_findings_reported":  r.knownHits,
+		"stale_contracts":          r.staleContracts,
 		"violations":               r.violationNames(),
 	}
 	var assumptions []string
@@ -486,6 +496,9 @@ func (r *checkRun) finish(w *World) int {
 	sort.Strings(assumptions)
 	cov["assumption_scan"] = len(assumptions)
 	r.writeEvidenceFileFull(cov, assumptions, len(r.violations))
+	if len(r.staleContracts) > 0 {
+		undecided = true
+	}
 	if undecided && exit == 0 {
 		// neither held nor violated: a stand-in could not be built. Exit 2 (tool error), no VIOLATION line.
 		return 2
